@@ -8,6 +8,7 @@ import props.C01 as C01
 
 ID = "C06"
 LEVEL = "exploration"
+HANG_IS_VIOLATION = True     # every generated case terminates under the model: no reply (twice, then 3x confirmation) is a violation
 ENGINE = "E-hyp"
 TECHNIQUE = "property-based testing: round-trip oracles (call compile str v == v, instruction-for-instruction code equality, literal spelling vs. float32 reference, pretty-printer listing equality)"
 RULE = ("four case kinds: value = nested values (booleans, strings over bytes 1..255, float32 numbers of <=6 significant digits, arrays depth<=4, code) "
